@@ -360,7 +360,7 @@ def shard(tier, seed, idx, n):
     # 4c. every operation with only its required arguments: the documented defaults (expire 0, delay 0, the configured
     #     noreply default) are what goes on the wire
     for stack, servers in STACKS:
-        for cfg in ({}, {"default_noreply": False}, {"key_prefix": b"px:"}):
+        for cfg in ({}, {"default_noreply": False}, {"key_prefix": b"px:"}) + (({"key_prefix": "strpx:"},) if stack == "client" else ()):
             for op, a in (("get", ("k1",)), ("gets", ("k1",)), ("gat", ("k1",)), ("gats", ("k1",)), ("set", ("k1", b"v")),
                           ("add", ("k1", b"v")), ("replace", ("k1", b"v")), ("append", ("k1", b"v")), ("prepend", ("k1", b"v")),
                           ("cas", ("k1", b"v", b"7")), ("delete", ("k1",)), ("incr", ("k1", 1)), ("decr", ("k1", 1)),
